@@ -1,5 +1,5 @@
 \* as-built state graph up to equality of the rewritten-object set; every transition logged (TR)
-CONSTANTS CopyOnLookup = FALSE SympyCopies = TRUE LibIds = {1,2,3,4,5,6,7,8,9} MaxReq = 1000000
+CONSTANTS CopyOnLookup = FALSE SympyCopies = TRUE LibIds = {1,2,3,4,5,6,7,8,9,10,11} MaxReq = 1000000
           Backends = {"flatten","casadi","sympy","xml"}
 INIT Init
 NEXT Next
